@@ -34,7 +34,7 @@ func dateOf(t time.Time) fakech.Date { return fakech.Date(proto.ToDate(t)) }
 
 // marker rules (must agree between ExtractRows and BlockRows):
 //
-//	samples_v3             string if non-empty, else "t<timestamp_ns>/<fingerprint>"
+//	samples_v3             string (MarkerOfLine) if non-empty, else "t<timestamp_ns>/<fingerprint>"
 //	time_series            labels + "#" + date + "#" + type
 //	tempo_traces           hex(span_id) + "/" + name
 //	tempo_traces_attrs_gin hex(span_id) + "/" + key + "=" + val
@@ -43,7 +43,7 @@ func markerOf(table string, c map[string]any) string {
 	switch table {
 	case "samples_v3":
 		if s, _ := c["string"].(string); s != "" {
-			return s
+			return MarkerOfLine(s)
 		}
 		return fmt.Sprintf("t%v/%v", c["timestamp_ns"], c["fingerprint"])
 	case "time_series":
@@ -58,6 +58,15 @@ func markerOf(table string, c map[string]any) string {
 		return fmt.Sprintf("%v/%v/%v", c["service_name"], c["type"], c["timestamp_ns"])
 	}
 	return fmt.Sprint(c)
+}
+
+// MarkerOfLine is the marker of a log line: the line itself, cut to 80 bytes plus its
+// length for long lines (generated lines are unique in their first bytes).
+func MarkerOfLine(s string) string {
+	if len(s) <= 80 {
+		return s
+	}
+	return fmt.Sprintf("%s…(%d bytes)", s[:80], len(s))
 }
 
 func lens(ls ...int) (int, bool) {
